@@ -147,7 +147,7 @@ class C20(Lab):
             if got != want or not (0 <= got < 128):
                 raise Violation("C20/value", f"crc7({d.hex()}) = {got}, bit-serial reference {want}")
             # the same for other byte containers
-            if len(d) <= 16 and (self.call(list(d)) != want or self.call(bytearray(d)) != want):
+            if len(d) <= 16 and (self.call(list(d)) != want or self.call(bytearray(d)) != want or self.call(memoryview(d)) != want or self.call(tuple(d)) != want):
                 raise Violation("C20/value", f"crc7 differs between bytes/list/bytearray for {d.hex()}")
             # ... and for one buffer object that is modified in place between calls (how a protocol
             # driver re-uses its receive buffer): the checksum is a function of the contents only
